@@ -28,7 +28,7 @@ type View struct {
 	Vendors    []string
 	Classes    []string
 	VendorFs   map[string][]string
-	VendorPP   map[string][]string // vendor -> sorted "path|priority|vendor|class" of every Spec GetVendorSpecs returns
+	VendorPP   map[string][]string // vendor -> sorted "path|priority|vendor|class|spec-marker" of every Spec GetVendorSpecs returns
 	SpecErrN   map[string]int      // path -> number of errors GetSpecErrors reports for that Spec
 	ErrKeys    []string
 	Errs       map[string]string
@@ -44,6 +44,15 @@ type DevView struct {
 	Marker string
 	Vendor string
 	Class  string
+}
+
+func specMarkerOf(env []string) string {
+	for _, e := range env {
+		if strings.HasPrefix(e, "CDI_SIM_SPEC=") {
+			return e[len("CDI_SIM_SPEC="):]
+		}
+	}
+	return ""
 }
 
 func markerOf(env []string) string {
@@ -73,7 +82,7 @@ func Query(c *cdi.Cache, probe []string) *View {
 			continue
 		}
 		s := d.GetSpec()
-		v.Dev[n] = DevView{Path: s.GetPath(), Prio: s.GetPriority(), Marker: markerOf(d.ContainerEdits.Env), Vendor: s.GetVendor(), Class: s.GetClass()}
+		v.Dev[n] = DevView{Path: s.GetPath(), Prio: s.GetPriority(), Marker: markerOf(d.ContainerEdits.Env) + "@" + specMarkerOf(s.ContainerEdits.Env), Vendor: s.GetVendor(), Class: s.GetClass()}
 	}
 	v.Vendors = c.ListVendors()
 	v.Classes = c.ListClasses()
@@ -82,7 +91,7 @@ func Query(c *cdi.Cache, probe []string) *View {
 		pp := map[string]bool{}
 		for _, s := range c.GetVendorSpecs(vn) {
 			set[s.GetPath()] = true
-			pp[fmt.Sprintf("%s|%d|%s|%s", s.GetPath(), s.GetPriority(), s.GetVendor(), s.GetClass())] = true
+			pp[fmt.Sprintf("%s|%d|%s|%s|%s", s.GetPath(), s.GetPriority(), s.GetVendor(), s.GetClass(), specMarkerOf(s.ContainerEdits.Env))] = true
 			v.SpecErrN[s.GetPath()] = len(c.GetSpecErrors(s))
 		}
 		v.VendorFs[vn] = sortedKeys(set)
@@ -200,7 +209,7 @@ func CompareTruth(v *View, t *model.Truth, o CheckOpts) (rule, sig, msg string) 
 				return "listing", "vendor-specs", fmt.Sprintf("%s: GetVendorSpecs(%s) paths=%v want %v", o.Where, vn, v.VendorFs[vn], t.VendorPaths(vn))
 			}
 			if !eqStrings(v.VendorPP[vn], t.VendorSpecs(vn)) {
-				return "listing", "vendor-spec-attributes", fmt.Sprintf("%s: GetVendorSpecs(%s) returns Specs (path|priority|vendor|class) %v, want %v", o.Where, vn, v.VendorPP[vn], t.VendorSpecs(vn))
+				return "listing", "vendor-spec-attributes", fmt.Sprintf("%s: GetVendorSpecs(%s) returns Specs (path|priority|vendor|class|spec marker) %v, want %v", o.Where, vn, v.VendorPP[vn], t.VendorSpecs(vn))
 			}
 		}
 	}
